@@ -343,7 +343,7 @@ where
                     let mut config = Config::default();
                     config.cases = share.min(u32::MAX as u64) as u32;
                     config.failure_persistence = None;
-                    config.max_shrink_iters = 20_000;
+                    config.max_shrink_iters = 3_000;
                     config.max_shrink_time = 0;
                     config.verbose = 0;
                     config.rng_algorithm = RngAlgorithm::ChaCha;
